@@ -4,6 +4,7 @@ C09 (extension) — full removal and `clear` at program level, inside the refine
 -/
 import Cacache.Lemmas.ListRefine
 import Cacache.Lemmas.FaultMore
+import Cacache.Lemmas.SpecLaws
 
 namespace Cacache.C09x
 open Prog CacheRefine ListRefine Refine
@@ -108,5 +109,48 @@ theorem removeFully_only_removes (env : Env) (plan : Nat → Option Fault) (key 
     (runFault env plan (removeFully cfg cache key) fs i).2.1.get q = fs.get q ∨
     (runFault env plan (removeFully cfg cache key) fs i).2.1.get q = none :=
   (FaultMore.removeFully_fault_removes cfg cache key env plan fs i).1 q
+
+/-- **Removing a key fully, twice, is removing it once** (`Lemmas/SpecLaws.lean`): on every healthy,
+tidy cache the second `remove_fully key` leaves index, store, bucket files and directories exactly
+as the first run left them (nothing ELSE is removed by repeating the call), keeps the cache healthy
+and tidy, and answers what the abstract removal answers in the state the first run produced. -/
+theorem removeFully_idempotent (env env' : Env) (key : Bytes) (fs : FS) (h : Healthy cfg cache fs)
+    (hl : HexLen cfg) (hT : Tidy cfg cache fs) :
+    absX cfg cache (run env' (removeFully cfg cache key) (run env (removeFully cfg cache key) fs).2.1).2.1 =
+      absX cfg cache (run env (removeFully cfg cache key) fs).2.1 ∧
+    Healthy cfg cache (run env' (removeFully cfg cache key) (run env (removeFully cfg cache key) fs).2.1).2.1 ∧
+    Tidy cfg cache (run env' (removeFully cfg cache key) (run env (removeFully cfg cache key) fs).2.1).2.1 :=
+  let r := SpecLaws.removeFully_twice cfg cache env env' key fs h hl hT
+  ⟨r.1, r.2.1, r.2.2.1⟩
+
+/-- … and when the first full removal answered ok, the second answers the NotFound of the bucket
+file that is gone — an error value, not a panic, and not the removal of anything else. -/
+theorem removeFully_again_answers_notFound (env env' : Env) (key : Bytes) (fs : FS)
+    (h : Healthy cfg cache fs) (hl : HexLen cfg) (hT : Tidy cfg cache fs)
+    (hok : (run env (removeFully cfg cache key) fs).1 = .ok ()) :
+    (run env' (removeFully cfg cache key) (run env (removeFully cfg cache key) fs).2.1).1 =
+      .error (.io .notFound) := by
+  have r := (SpecLaws.removeFully_twice cfg cache env env' key fs h hl hT).2.2.2
+  have a := (removeFully_refines cfg cache env key fs h hl hT).1
+  rw [a] at hok
+  exact r.trans (SpecLaws.removeFullySpec_again_notFound cfg _ key hok)
+
+/-- **Clearing twice is clearing once**: the second `clear` answers ok and the cache directory
+still exists with nothing below it; both states abstract to the empty cache. -/
+theorem clear_idempotent (env env' : Env) (fs : FS) (hH : Healthy cfg cache fs) (hT : Tidy cfg cache fs)
+    (hd : fs.isDir cache = true) :
+    (run env' (clear cache) (run env (clear cache) fs).2.1).1 = .ok () ∧
+    absCache cfg cache (run env' (clear cache) (run env (clear cache) fs).2.1).2.1 = AbsCache.empty ∧
+    absCache cfg cache (run env (clear cache) fs).2.1 = AbsCache.empty ∧
+    (∀ q, cache <+: q → q ≠ cache →
+      (run env' (clear cache) (run env (clear cache) fs).2.1).2.1.get q = none) ∧
+    (run env' (clear cache) (run env (clear cache) fs).2.1).2.1.isDir cache = true :=
+  SpecLaws.clear_twice cfg cache env env' fs hH hT hd
+
+/-- The abstract machine's removal and clear are idempotent for EVERY abstract state. -/
+theorem spec_removals_idempotent (m : XAbs) (key : Bytes) :
+    (removeFullySpec cfg (removeFullySpec cfg m key).1 key).1 = (removeFullySpec cfg m key).1 ∧
+    clearSpec (clearSpec m).1 = clearSpec m :=
+  ⟨SpecLaws.removeFullySpec_idem cfg m key, SpecLaws.clearSpec_idem m⟩
 
 end Cacache.C09x
